@@ -239,6 +239,7 @@ func RunNative(harnesses map[string]func()) int {
 		}()
 		f()
 	}()
+	CleanupDBs()
 	for _, k := range KnownHits {
 		fmt.Printf("VERIF-KNOWN-HIT: %s\n", k)
 	}
